@@ -91,6 +91,11 @@ def finish(rep, level, explanation, assumptions, trusted_base, checker_cmd, seed
         if k['property'] == rep.prop:
             known_keys[k['key']] = k
     ev_dir = os.environ.get('VERIF_EVIDENCE_DIR') or os.path.join(VERIF, 'evidence')
+    replay_key = os.environ.get('VERIF_REPLAY_KEY')
+    if replay_key:
+        # --replay: re-decide one reported obligation on the current tree; evidence of the full run is left untouched
+        import tempfile
+        ev_dir = tempfile.mkdtemp(prefix='rivia-replay-')
     rp_dir = os.path.join(ev_dir, 'replay')
     os.makedirs(rp_dir, exist_ok=True)
     # remove stale replay files of this property
@@ -106,13 +111,23 @@ def finish(rep, level, explanation, assumptions, trusted_base, checker_cmd, seed
                 known_hits.append(o)
             else:
                 violations.append(o)
+    if replay_key:
+        hit = [o for o in rep.obls if o.key == replay_key]
+        violations = [o for o in violations if o.key == replay_key]
+        print('replay: obligation %s %s' % (replay_key, 'is not produced by the rules on this tree (anchor gone?)' if not hit else
+                                            ('is still violated' if violations else 'holds on this tree (%s)' % hit[0].status)))
+        if not hit:
+            print('VIOLATION property=%s replay=%s' % (rep.prop, os.environ.get('VERIF_REPLAY_FILE', '')))
+            return 1
     n = 0
     for o in known_hits:
         print('KNOWN-FINDING: property=%s %s [%s %s] %s' % (rep.prop, known_keys[o.key]['what'], o.rule, o.key, o.where))
     for o in violations:
         n += 1
         rp = os.path.join(rp_dir, '%s-%d.json' % (rep.prop, n))
-        with open(rp, 'w') as f:
+        if replay_key:
+            rp = os.environ.get('VERIF_REPLAY_FILE', rp)
+        with open(os.devnull if replay_key else rp, 'w') as f:
             json.dump({'property': rep.prop, 'rule': o.rule, 'rule_text': rep.rules.get(o.rule, ''), **o.as_dict()}, f, indent=1)
         print('%s: %s  [%s %s]' % (o.where, o.detail or o.desc, o.rule, o.key))
         print('VIOLATION property=%s replay=%s' % (rep.prop, rp))
@@ -185,6 +200,9 @@ def finish(rep, level, explanation, assumptions, trusted_base, checker_cmd, seed
     }
     with open(os.path.join(ev_dir, rep.prop + '.json'), 'w') as f:
         json.dump(ev, f, indent=1)
+    if replay_key:
+        import shutil
+        shutil.rmtree(ev_dir, ignore_errors=True)
     print('%s: %d obligations, %d discharged, %d excused by table, %d known finding(s), %d violation(s)  [%.1fs]' % (
         rep.prop, total, discharged, excused, len(known_hits), len(violations), time.time() - rep.t0))
     return 1 if violations else 0
